@@ -274,13 +274,13 @@ func zShapeEq(a, b zShape) bool {
 // forward), Decode yields an equal value and consumes exactly the bytes produced (C01), and a second Encode gives
 // identical bytes (also with the map filled in another order).
 //
-//verif:h prop=C01 cover=nums,bytes,opt-nil,opt-set,coll,big,coded,refused,unordered-map,timed,strict,list,ptrmap,names,custom steps=3000000 runs=3000000 timeout=600/900 reversemaps=1
+//verif:h prop=C01 cover=nums,bytes,opt-nil,opt-set,coll,big,coded,refused,unordered-map,timed,strict,list,ptrmap,names,custom steps=3000000 runs=3000000 timeout=900/900 reversemaps=1
 func H_C01_serix() { zRoundTrip() }
 
 // H_C03_serix_layout: the same exploration registered under C03 (its assertions include the comparison of Encode's
 // output with the reference layout written by hand in this file).
 //
-//verif:h prop=C03 cover=nums,bytes,opt-nil,opt-set,coll,big,coded,refused,unordered-map,timed,strict,list,ptrmap,names,custom steps=3000000 runs=3000000 timeout=600/900 reversemaps=1
+//verif:h prop=C03 cover=nums,bytes,opt-nil,opt-set,coll,big,coded,refused,unordered-map,timed,strict,list,ptrmap,names,custom steps=3000000 runs=3000000 timeout=900/900 reversemaps=1
 func H_C03_serix_layout() { zRoundTrip() }
 
 func zRoundTrip() {
@@ -644,18 +644,18 @@ func zRoundTrip() {
 // validating decoder accepts, re-encoding the decoded value with validation succeeds and yields exactly the
 // consumed bytes (C03 reverse).
 //
-//verif:h prop=C02 p.maxlen=5/7 cover=accepted,rejected steps=3000000 runs=3000000 timeout=600/900 maxvals=300
+//verif:h prop=C02 p.maxlen=5/7 cover=accepted,rejected steps=3000000 runs=3000000 timeout=900/900 maxvals=300
 func H_C02_serix() { zDecodeArbitrary(false, -1) }
 
 // H_C03_serix_canonical: the validating decoder only (C03 reverse direction).
 //
-//verif:h prop=C03 p.maxlen=5/7 cover=accepted,rejected,canonical steps=3000000 runs=3000000 timeout=600/900 maxvals=300
+//verif:h prop=C03 p.maxlen=5/7 cover=accepted,rejected,canonical steps=3000000 runs=3000000 timeout=900/900 maxvals=300
 func H_C03_serix_canonical() { zDecodeArbitrary(true, -1) }
 
 // H_C03_serix_optional: the same for the optional-field target alone, with inputs long enough to hold a length
 // marker that is larger than the field it announces.
 //
-//verif:h prop=C03 p.maxlen=6/8 cover=accepted,rejected,canonical steps=3000000 runs=3000000 timeout=600/900 maxvals=300
+//verif:h prop=C03 p.maxlen=6/8 cover=accepted,rejected,canonical steps=3000000 runs=3000000 timeout=900/900 maxvals=300
 func H_C03_serix_optional() { zDecodeArbitrary(true, 8) }
 
 func zDecodeArbitrary(canonical bool, only int) {
@@ -810,7 +810,7 @@ func zPlain(v any) any {
 	return v
 }
 
-//verif:h prop=C02 cover=accepted,rejected native=0 runs=3000000 timeout=600/900 steps=3000000
+//verif:h prop=C02 cover=accepted,rejected native=0 runs=3000000 timeout=900/900 steps=3000000
 func H_C02_serix_map() {
 	api := zAPI()
 	ctx := context.Background()
